@@ -2,10 +2,10 @@ CONSTANTS
   FlowSet = {"flows/a.yaml", "flows/b.yaml"}
   Endpoints = {"configuration", "apply_flows"}
   Methods = {"PUT", "POST"}
-  MaxNth = 5
+  MaxNth = 4
   WithBadB64 = TRUE
   MxOld = {"none", "m1"}
-  GwOld = {"none", "g1"}
+  GwOld = {"none"}
   AnchorFlows = {}
   Paths <- PathsMC
   Cat <- CatMC
